@@ -43,12 +43,16 @@ def lean_str(s: str) -> str:
 
 
 class Translator:
-    def __init__(self, known: set[str]):
+    def __init__(self, known: set[str], consts: dict | None = None):
         self.known = known        # python names of the functions being translated (callable from one another)
+        self.consts = consts or {}   # module-level NAME = <tuple/str/int constant> assignments, inlined at their uses
+        self.locals: set[str] = set()
 
     # ------------------------------------------------------------------ expressions
     def E(self, e: ast.expr) -> str:
         if isinstance(e, ast.Name):
+            if e.id not in self.locals and e.id in self.consts:
+                return self.E(self.consts[e.id])
             return ident(e.id)
         if isinstance(e, ast.Constant):
             v = e.value
@@ -105,6 +109,16 @@ class Translator:
             return f"(Rbacx.Py.collect {self.E(g.iter)} fun {ident(g.target.id)} => {body})"
         if isinstance(e, ast.Call):
             f = e.func
+            if isinstance(f, ast.Attribute) and f.attr == "lower" and not e.args and not e.keywords:
+                return f"(Rbacx.Py.lower {self.E(f.value)})"
+            if isinstance(f, ast.Attribute) and f.attr == "endswith" and len(e.args) == 1 and not e.keywords:
+                return f"(Rbacx.Py.endswith {self.E(f.value)} {self.E(e.args[0])})"
+            if isinstance(f, ast.Name) and f.id == "any" and len(e.args) == 1 and isinstance(e.args[0], ast.GeneratorExp) \
+                    and len(e.args[0].generators) == 1 and not e.args[0].generators[0].ifs \
+                    and isinstance(e.args[0].generators[0].target, ast.Name):
+                g = e.args[0].generators[0]
+                self.locals.add(g.target.id)
+                return f"(Rbacx.Py.anyOf {self.E(g.iter)} fun {ident(g.target.id)} => {self.E(e.args[0].elt)})"
             if isinstance(f, ast.Attribute) and f.attr == "get" and len(e.args) == 1 and isinstance(e.args[0], ast.Constant) \
                     and isinstance(e.args[0].value, str) and not e.keywords:
                 return f"(Rbacx.Py.get {self.E(f.value)} {lean_str(e.args[0].value)})"
@@ -175,9 +189,12 @@ class Translator:
         raise Unsupported(f"statement {ast.unparse(st)[:60]}")
 
     def function(self, fn: ast.FunctionDef) -> str:
-        if fn.args.vararg or fn.args.kwarg or fn.args.kwonlyargs or fn.args.defaults:
+        if fn.args.vararg or fn.args.kwarg or fn.args.defaults:
             raise Unsupported(f"signature of {fn.name}")
-        params = " ".join(f"({ident(a.arg)} : PyVal)" for a in fn.args.args)
+        # keyword-only parameters become positional ones in signature order (their defaults are not used: callers pass all of them)
+        allargs = list(fn.args.args) + list(fn.args.kwonlyargs)
+        self.locals = {a.arg for a in allargs} | {n.id for n in ast.walk(fn) if isinstance(n, ast.Name) and isinstance(n.ctx, ast.Store)}
+        params = " ".join(f"({ident(a.arg)} : PyVal)" for a in allargs)
         return f"def {ident(fn.name)} {params} : PyVal :=\n  {self.S(fn.body, '  ')}\n"
 
 
@@ -185,7 +202,13 @@ def translate(source: str, names: list[str]) -> dict[str, str]:
     """{python function name: Lean definition text} in the order given (callees first)"""
     tree = ast.parse(source)
     fns = {n.name: n for n in tree.body if isinstance(n, ast.FunctionDef)}
-    tr = Translator(set(names))
+    consts = {}
+    for n in tree.body:
+        if isinstance(n, ast.Assign) and len(n.targets) == 1 and isinstance(n.targets[0], ast.Name):
+            v = n.value
+            if isinstance(v, ast.Constant) or (isinstance(v, (ast.Tuple, ast.List)) and all(isinstance(x, ast.Constant) for x in v.elts)):
+                consts[n.targets[0].id] = v
+    tr = Translator(set(names), consts)
     out = {}
     for name in names:
         if name not in fns:
